@@ -50,6 +50,7 @@ type Clause struct {
 	E    SExpr
 	Line int
 	File string
+	Loop int // invariant@N: only for the N-th loop of the function (0: placed by name resolution)
 }
 
 type FuncSpec struct {
@@ -160,6 +161,10 @@ func (ss *SpecSet) LoadSpecFile(path, pkgPath string) error {
 		if j := strings.IndexAny(t, " \t"); j >= 0 {
 			kw, rest = t[:j], strings.TrimSpace(t[j+1:])
 		}
+		if strings.HasPrefix(kw, "invariant@") {
+			rest = kw[len("invariant"):] + " " + rest
+			kw = "invariant"
+		}
 		if keywords[kw] {
 			raws = append(raws, rawClause{kw, rest, i + 1})
 		} else if len(raws) > 0 {
@@ -196,11 +201,21 @@ func (ss *SpecSet) LoadSpecFile(path, pkgPath string) error {
 			if cur == nil {
 				return fail(fmt.Errorf("%s outside func", r.kw))
 			}
-			e, err := ParseSpecExpr(r.text)
+			loopN := 0
+			txt := r.text
+			if r.kw == "invariant" && strings.HasPrefix(txt, "@") {
+				j := strings.IndexAny(txt, " \t")
+				if j < 0 {
+					return fail(fmt.Errorf("bad invariant@N"))
+				}
+				fmt.Sscanf(txt[1:j], "%d", &loopN)
+				txt = strings.TrimSpace(txt[j:])
+			}
+			e, err := ParseSpecExpr(txt)
 			if err != nil {
 				return fail(err)
 			}
-			cl := Clause{Kind: r.kw, Text: r.text, E: e, Line: r.line, File: path}
+			cl := Clause{Kind: r.kw, Text: txt, E: e, Line: r.line, File: path, Loop: loopN}
 			switch r.kw {
 			case "requires":
 				cur.Requires = append(cur.Requires, cl)
